@@ -237,16 +237,21 @@ theorem np_openBuild (cs vs) (long : Bool) (names : List (List Char)) (acc : Lis
 theorem np_streamOf (c : List Entry) (n : List Char) : NoPanic (streamOf c n) := by
   unfold streamOf; split <;> first | exact np_pure _ | exact np_err _
 
+theorem np_openTables (pt : Nat) (cont : List Entry) (summary : PropSet) (pool : Pool) :
+    NoPanic (openTables pt cont summary pool) := by
+  unfold openTables
+  refine np_bind (np_loadRows _ _) fun _ => np_bind (np_openNames _ _ _) fun _ => ?_
+  refine np_bind (np_loadRows _ _) fun _ => np_bind (np_openColsMap _ _ _ _) fun _ => ?_
+  refine np_bind (np_loadRows _ _) fun _ => np_bind (np_openValMap _ _ _) fun _ => ?_
+  exact np_bind (np_openBuild _ _ _ _ _) fun _ => np_pure _
+
 theorem np_openCore (pt : Option Nat) (cont : List Entry) : NoPanic (openCore pt cont) := by
   unfold openCore
   refine np_bind (np_ofOption _ _) fun _ => ?_
   refine np_bind (np_streamOf _ _) fun _ => np_bind (np_summary_read _) fun _ => np_bind (np_streamOf _ _) fun _ => ?_
   refine np_bind (np_readU32 _) fun _ => np_bind (np_ofOption _ _) fun _ => ?_
   refine np_bind (np_readEntries _ _ _) fun _ => np_bind (np_streamOf _ _) fun _ => np_bind (np_pool_read _ _) fun _ => ?_
-  refine np_bind (np_loadRows _ _) fun _ => np_bind (np_openNames _ _ _) fun _ => ?_
-  refine np_bind (np_loadRows _ _) fun _ => np_bind (np_openColsMap _ _ _ _) fun _ => ?_
-  refine np_bind (np_loadRows _ _) fun _ => np_bind (np_openValMap _ _ _) fun _ => ?_
-  exact np_bind (np_openBuild _ _ _ _ _) fun _ => np_pure _
+  exact np_bind (np_openTables _ _ _ _) fun _ => np_pure _
 
 /-- **`Package::open` never panics**, whatever the container holds and whatever class id
 the root carries -/
